@@ -576,7 +576,7 @@ class Runner:
         wd = os.path.join(self.ctx.workdir, "drv", "%s%d" % (self.tag, wi))
         os.makedirs(wd, exist_ok=True)
         r = cybuild.run_script(RUNNER, wd, {"requests": specs, "tmp": wd, "warm": self.warm}, name="runner.py",
-                               timeout=1500)
+                               timeout=3000)
         if r["json"] is None or len(r["json"]) != len(specs):
             return [dict(self.BAD, error="HARNESS: " + (r["err"] or r["out"])[-600:])] * len(specs)
         return r["json"]
@@ -685,19 +685,23 @@ def run(ctx):
         if quick and comp not in QUICK_CY:
             continue
         single("cythonize", comp, val, steps)
-    comp_variants = [v for v in variants if not v[0].startswith("ext:")] + COMPILE_ONLY
+    # (compile(timestamps=True) goes through compile_multiple, which hashes the source under its absolute
+    #  path: a different - harmless - key; the path spelling is not a modelled input)
+    comp_variants = [v for v in variants if not v[0].startswith("ext:") and v[0] != "opt:timestamps"] + COMPILE_ONLY
     if quick:
         picks = [v for v in comp_variants if v[0] in ("src:bytes", "opt:cplus", "dir:cdivision")]
     else:
-        picks = [v for v in comp_variants if v[2] == "q" or v[0].startswith(("glob:", "opt:"))]
+        picks = [v for v in comp_variants if v[2] == "q" or v[0].startswith("opt:")]
     for comp, val, tag in picks:
         single("compile", comp, val, steps)
     # random walks: each step changes one input (to its alternative or back)
-    nwalk, wlen = (1, 5) if quick else (8, 8)
+    nwalk, wlen = (1, 5) if quick else (6, 8)
     pool = [v for v in variants if not v[0].startswith("ext:") and v[0] not in ("opt:gdb_debug", "dir:formal_grammar", "dir:set_initial_path", "dir:language_level")]
     for w in range(nwalk):
         mode = "cythonize" if w % 2 == 0 else "compile"
         base = dict(copy.deepcopy(BASE_REQ), mode=mode)
+        if mode == "compile":
+            pool = [v for v in pool if v[0] != "opt:timestamps"]
         cur = base
         state = {}
         seq, comps = [base], []
@@ -722,7 +726,7 @@ def run(ctx):
     for hname, _m, _c, seq in plans:
         jobs["hist:" + hname] = runner.history_specs(hname, seq)
     # the oracle a second time, in cold processes (no warm-up): determinism + warm-up is harmless
-    some = list(all_reqs.values())[:2 if quick else 8]
+    some = list(all_reqs.values())[:2 if quick else 4]
     cold = Runner(ctx, 2, warm=False, tag="cold")
     with cf.ThreadPoolExecutor(max_workers=2) as ex:
         fcold = ex.submit(cold.run_jobs, cold.fresh_specs(some, "fresh_cold"))
@@ -757,7 +761,8 @@ def run(ctx):
             vec = []
             for n in names:
                 vec.append(str(ids.setdefault((n, json.dumps(cv.get(n), sort_keys=True)), len(ids) + 1)))
-            vecs.append("0:" + ",".join(vec))
+            # a request whose compilation fails consults the cache but stores nothing
+            vecs.append(("01:" if fresh_of(rq).get("error") else "00:") + ",".join(vec))
         lines.append("hist %s %s %s" % (",".join(map(str, ks)) or "-", ",".join(map(str, aff)) or "-", ";".join(vecs)))
     model = ctx.model("cachekey")
     mres = model.batch(lines)
@@ -831,7 +836,10 @@ INL_BASE = {"code": INL_CODE, "args": {"a": -7, "b": 2, "c": -1}, "language_leve
 
 def inl_values(rq):
     d = {"inl:code": rq["code"], "inl:arg_types": [type(v).__name__ for k, v in sorted(rq["args"].items())],
-         "inl:arg_names": sorted(rq["args"]), "inl:language_level": rq["language_level"]}
+         "inl:arg_names": sorted(rq["args"]),
+         # what cython_inline passes to the key: the argument, defaulted to '3' unless a directive gives the level
+         "inl:language_level": rq["language_level"] if rq["language_level"] is not None
+                               else ("3" if "language_level" not in rq["dir"] else None)}
     for k, v in rq["dir"].items():
         d["inl:dir:" + k] = v
     return d
@@ -846,7 +854,7 @@ def run_inline(ctx, quick, in_rows, required):
     base = var()
     cdiv = var(dir={"cdivision": True})
     ll2 = var(language_level=2)
-    flt = var(args={"a": -7.0, "b": 2, "c": -1})
+    flt = var(args={"a": -7, "b": 2.0, "c": -1})
     wrap = var(dir={"wraparound": False, "boundscheck": False})
     code2 = var(code=INL_CODE.replace("x // b", "x // b + 1"))
     dll2 = var(dir={"language_level": 2})
@@ -864,7 +872,7 @@ def run_inline(ctx, quick, in_rows, required):
         rid = req_id(rq)
         wd = os.path.join(ctx.workdir, "inl_fresh", rid)
         r = cybuild.run_script(INLINE_RUNNER, wd, {"lib_dir": os.path.join(wd, "lib"), "requests": [rq]},
-                               name="inl.py", timeout=600, extra_env=env)
+                               name="inl.py", timeout=1800, extra_env=env)
         return rid, (r["json"][0] if r["json"] else {"error": "HARNESS " + (r["err"] or "")[-500:]})
     def cached_all():
         out = []
@@ -872,7 +880,7 @@ def run_inline(ctx, quick, in_rows, required):
         for pi, p in enumerate(procs):
             wd = os.path.join(ctx.workdir, "inl_hist", "p%d" % pi)
             r = cybuild.run_script(INLINE_RUNNER, wd, {"lib_dir": lib, "requests": p}, name="inl.py",
-                                   timeout=900, extra_env=env)
+                                   timeout=2400, extra_env=env)
             out += r["json"] if r["json"] else [{"error": "HARNESS " + (r["err"] or "")[-500:]}] * len(p)
         return out
     with cf.ThreadPoolExecutor(max_workers=6) as ex:
@@ -886,7 +894,7 @@ def run_inline(ctx, quick, in_rows, required):
     ids, vecs = {}, []
     for rq in flat:
         cv = inl_values(rq)
-        vecs.append("0:" + ",".join(str(ids.setdefault((n, json.dumps(cv.get(n), sort_keys=True)), len(ids) + 1))
+        vecs.append("00:" + ",".join(str(ids.setdefault((n, json.dumps(cv.get(n), sort_keys=True)), len(ids) + 1))
                                     for n in names))
     mline = ctx.model("cachekey").batch(["hist %s %s %s" % (",".join(map(str, ks)), ",".join(map(str, aff)), ";".join(vecs))])[0]
     pred = mline.split(",")
